@@ -2051,4 +2051,58 @@ theorem quic_connection_exact (hl : H.Lawful) (h32 : H.sha256.outLen = 32) (L : 
   rw [addressed_congr c c1 e4 e5 e6 e7 e8 e9]
 
 end HsFinal
+/-! ### the local parser hypothesis is satisfiable: a conformant handshake's messages through the concrete `QuicTlsSession` -/
+
+namespace ExHs
+open TLX.Props.C02Pipeline
+def crB : Bytes := List.replicate 32 0x5a
+/-- ClientHello: legacy_version, random, empty session id, one suite 0x1301, null compression, empty extension list -/
+def chMsg : Bytes := [1, 0, 0, 43, 3, 3] ++ crB ++ [0, 0, 2, 0x13, 0x01, 1, 0, 0, 0]
+/-- ServerHello: random, empty session-id echo, suite 0x1301, empty extension list -/
+def shMsg : Bytes := [2, 0, 0, 40, 3, 3] ++ List.replicate 32 0x77 ++ [0, 0x13, 0x01, 0, 0, 0]
+def eeFin : Bytes := [8, 0, 0, 2, 0, 0, 20, 0, 0, 1, 0xaa]
+def finMsg : Bytes := [20, 0, 0, 1, 0xbb]
+
+def ins : List CryptoIn :=
+  [⟨false, .initial, 0, 47, chMsg⟩, ⟨true, .initial, 0, 44, shMsg⟩, ⟨true, .handshake, 0, 11, eeFin⟩,
+   ⟨false, .handshake, 0, 5, finMsg⟩]
+
+/-- the ClientHello alone: no raise -/
+theorem u1 : (tlsUpdate {} ⟨false, .initial, 0, 47, chMsg⟩).2 = none := by
+  unfold tlsUpdate
+  simp only [ptOf]
+  unfold CryptoStream.update CryptoStream.handleBuffer
+  simp only [CryptoStream.handleBufferGo, Lemmas.CryptoStream.msgLoop_eq_len]
+  simp [CryptoStream.State.set, CryptoStream.State.init, CryptoStream.absorb, CryptoStream.sortByOffset,
+    CryptoStream.insertSorted, CryptoStream.pass, CryptoStream.removeFrame, Lemmas.CryptoStream.msgLoopF, Bytes.beNat,
+    Bytes.slice, chMsg, crB, recordRaises, TlsMsgs.handleRecord, TlsMsgs.handleClientHello, TlsMsgs.chBody,
+    TlsMsgs.extsThenNewData, TlsMsgs.getExtensions, parseExts_nil, TlsMsgs.applyExts]
+
+/-- `PTrace` for ClientHello (client Initial), ServerHello (server Initial), EncryptedExtensions ‖ Finished (server Handshake),
+    Finished (client Handshake): by evaluation of `CryptoStream` + `TlsMsgs` -/
+theorem ptrace_ex : PTrace crB [0x13, 0x01] {} ins := by
+  simp only [ins, PTrace]
+  unfold tlsUpdate
+  simp only [ptOf, clearND]
+  unfold CryptoStream.update CryptoStream.handleBuffer
+  simp only [CryptoStream.handleBufferGo, Lemmas.CryptoStream.msgLoop_eq_len]
+  simp [CryptoStream.State.set, CryptoStream.State.init, CryptoStream.absorb, CryptoStream.sortByOffset,
+    CryptoStream.insertSorted, CryptoStream.pass, CryptoStream.removeFrame, Lemmas.CryptoStream.msgLoopF, Bytes.beNat,
+    Bytes.slice, chMsg, shMsg, eeFin, finMsg, crB, recordRaises, feedRecords, TlsMsgs.handleRecord,
+    TlsMsgs.handleClientHello, TlsMsgs.chBody, TlsMsgs.handleServerHello, TlsMsgs.handleEncryptedExtensions,
+    TlsMsgs.extsThenNewData, TlsMsgs.getExtensions, parseExts_nil, TlsMsgs.applyExts]
+
+/-- … and the ServerHello input fires (`new_data`): the keys get installed while the server Initial is handled -/
+theorem fired_ex : pfired (pfold {} [⟨false, .initial, 0, 47, chMsg⟩]) [⟨true, .initial, 0, 44, shMsg⟩] = true := by
+  simp only [pfired, pfold, List.foldl]
+  unfold tlsUpdate
+  simp only [ptOf, clearND]
+  unfold CryptoStream.update CryptoStream.handleBuffer
+  simp only [CryptoStream.handleBufferGo, Lemmas.CryptoStream.msgLoop_eq_len]
+  simp [CryptoStream.State.set, CryptoStream.State.init, CryptoStream.absorb, CryptoStream.sortByOffset,
+    CryptoStream.insertSorted, CryptoStream.pass, CryptoStream.removeFrame, Lemmas.CryptoStream.msgLoopF, Bytes.beNat,
+    Bytes.slice, chMsg, shMsg, crB, recordRaises, feedRecords, TlsMsgs.handleRecord,
+    TlsMsgs.handleClientHello, TlsMsgs.chBody, TlsMsgs.handleServerHello,
+    TlsMsgs.extsThenNewData, TlsMsgs.getExtensions, parseExts_nil, TlsMsgs.applyExts]
+end ExHs
 end TLX.Props.C02Capstone
